@@ -348,6 +348,10 @@ def directed():
     out.append(("ts2-dc-start", "x.ts", "[Version] 2.0\n# GHz S RI R 50\n[Number of Ports] 1\n[Number of Frequencies] 2\n"
                                          "[Network Data]\n0 0.1 0.2\n1 0.3 0.4\n[End]\n"))
     out.append(("npd-dc-start", "x.npd", "#:ports 1\n#:frequencies 2\n#:parameters Sri\n0 0.1 0.2\n1e9 0.3 0.4\n"))
+    # a subnormal frequency times the unit: the product of the already coarsely rounded operand (model tie: skipped, not compared)
+    out.append(("ts1-subnormal-frequency", "x.s1p", "# kHz S RI R 50\n1e-320 0.1 0.2\n"))
+    out.append(("ts2-subnormal-frequency", "x.ts", "[Version] 2.0\n# THz S RI R 50\n[Number of Ports] 1\n[Number of Frequencies] 1\n"
+                                                    "[Network Data]\n1e-320 0.1 0.2\n"))
     out.append(("ts1-negative-r", "x.s1p", "# GHz Z RI R -50\n1 0.1 0.2\n"))
     out.append(("ts1-zero-r", "x.s1p", "# GHz Y RI R 0\n1 0.1 0.2\n"))
     out.append(("ts2-negative-reference", "x.ts",
